@@ -69,6 +69,11 @@ TSeek     == Is("Seek") /\ Intact /\ Seek(Ev.i, Ev.k)
 TNext     == Is("Next") /\ Intact          \* buffers handed out stayed intact until this call
                         /\ (IF Ev.ok THEN NextHit(Ev.i, Ev.k, Ev.v, IF Has("calls") THEN Ev.calls ELSE <<>>) ELSE NextMiss(Ev.i))
 TClose    == Is("Close") /\ Intact /\ Close(Ev.i)
+\* C11, blocks above 4 GiB: the restart array switches to 64-bit offsets (block_builder.c / block.c round trip, harness/bigblock.c)
+TBigBlock == /\ Is("BigBlock")
+             /\ IF Has("skipped") THEN TRUE
+                ELSE Ev.wide /\ Ev.seen = Ev.n /\ Ev.content_ok /\ Ev.seek_ok /\ Ev.estimate_matches /\ Ev.restarts = (Ev.n + Ev.ri - 1) \div Ev.ri
+             /\ UNCHANGED vars
 TMergeTool == Is("MergeTool") /\ MergeTool(Ev.inputs, Ev.out, Ev.rc = 0)
 TSrcWrite == Is("SrcWrite") /\ SrcWrite(Ev.src, Ev.w, Ev.ok)
 Spills    == IF Has("spills") THEN Ev.spills ELSE <<>>
@@ -91,7 +96,7 @@ TPoolDestroy == Is("PoolDestroy") /\ PoolDestroy(Ev.p)
 TApi == \/ TJudge \/ TIgnore \/ TInfo \/ TDump \/ TFileStruct \/ TFileHash \/ TMkOther \/ TMkTable \/ TRm
         \/ TWInit \/ TWAdd \/ TWClose \/ TROpen \/ TRDestroy \/ TRMeta
         \/ TUInit \/ TUAdd \/ TUDestroy \/ TMInit \/ TMAdd \/ TMDestroy
-        \/ TOpen \/ TSeek \/ TNext \/ TClose \/ TSrcWrite \/ TMergeTool
+        \/ TOpen \/ TSeek \/ TNext \/ TClose \/ TSrcWrite \/ TMergeTool \/ TBigBlock
         \/ TFsOpen \/ TFsClose \/ TClock \/ TSetFile \/ TFsInit \/ TFsDup \/ TFsReload \/ TFsReloadNow \/ TFsDestroy
         \/ TSInit \/ TSAdd \/ TSIter \/ TSWrite \/ TSDestroy \/ TPoolInit \/ TPoolDestroy
 TNext0 == TReset \/ TObs \/ TLeak \/ (TApi /\ UNCHANGED obase)
